@@ -125,6 +125,7 @@ fn fam_0(thorough: bool) -> Vec<Case> {
                     let _ = f.insert(&mix(cyc * 8 + x));
                 }
                 f.clear();
+                if live() - base > 4 * 1024 * 1024 { break; } // runaway growth: stop before the allocator gives up; the verdict below reports it
             }
             rec(&mut c, &mut noise, base, "after 300 fill/clear cycles".into());
             c.flat.push(("after clear".into(), "after 300 fill/clear cycles".into()));
@@ -181,6 +182,7 @@ fn fam_1(thorough: bool) -> Vec<Case> {
                     let _ = f.insert(&Key(mix(cyc * 8 + x)));
                 }
                 f.clear();
+                if live() - base > 4 * 1024 * 1024 { break; } // runaway growth: stop before the allocator gives up; the verdict below reports it
             }
             rec(&mut c, &mut noise, base, "after 300 fill/clear cycles".into());
             c.flat.push(("after clear".into(), "after 300 fill/clear cycles".into()));
@@ -226,6 +228,7 @@ fn fam_2(thorough: bool) -> Vec<Case> {
                     f.insert(&mix(cyc * 8 + x)).unwrap();
                 }
                 f.clear();
+                if live() - base > 4 * 1024 * 1024 { break; } // runaway growth: stop before the allocator gives up; the verdict below reports it
             }
             rec(&mut c, &mut noise, base, "after 300 fill/clear cycles".into());
             c.flat.push(("after clear".into(), "after 300 fill/clear cycles".into()));
@@ -273,6 +276,7 @@ fn fam_3(thorough: bool) -> Vec<Case> {
                         s.add(&mix(cyc * 8 + x));
                     }
                     s.clear();
+                    if live() - base > 4 * 1024 * 1024 { break; }
                 }
                 rec(&mut c, &mut noise, base, "after 300 fill/clear cycles".into());
                 c.flat.push(("after clear".into(), "after 300 fill/clear cycles".into()));
@@ -321,6 +325,7 @@ fn fam_4(thorough: bool) -> Vec<Case> {
                 h.add(&mix(cyc * 8 + x));
             }
             h.clear();
+            if live() - base > 4 * 1024 * 1024 { break; }
         }
         rec(&mut c, &mut noise, base, "after 100 fill/clear cycles".into());
         c.flat.push(("after clear".into(), "after 100 fill/clear cycles".into()));
